@@ -98,7 +98,7 @@ def refusal_run_case(rng, run, tail):
 def generate(rng, tier):
     cs = []
     n, maxlen = (400, 40) if tier == "quick" else (20000, 1000)
-    for run in ([255, 256, 257, 300] if tier == "quick" else [255, 256, 257, 511, 512, 1000, 65535, 65536, 65537, 70000]):
+    for run in ([255, 256, 257, 300] if tier == "quick" else [255, 256, 257, 1000, 65536, 65537]):
         cs.append(refusal_run_case(rng, run, 4))
     for _ in range(n):
         c = history_case(rng, maxlen if rng.random() < 0.3 else 8)
